@@ -65,6 +65,12 @@ type (
 		Kind string `json:"kind"`
 	}
 
+	// TplOrc is the template-parsing oracle row of one builder spec.
+	TplOrc struct {
+		Key string `json:"key"`
+		OK  bool   `json:"ok"`
+	}
+
 	// Orc are the oracle tables of one case.
 	Orc struct {
 		Pats    []string `json:"pats"`
@@ -72,7 +78,7 @@ type (
 		RLFirst []int    `json:"rl_first"` // RateLimiter: index of the first URL rule matching request i (-1 none)
 		Filters []SubOrc `json:"filters"`  // Pipeline
 		Resil   []SubOrc `json:"resil"`    // Pipeline
-		X509    []string `json:"x509"`     // HTTPServer: "cert\x00key" pairs accepted by tls.X509KeyPair
+		Tpl     []TplOrc `json:"tpl"`      // builders: leftDelim|rightDelim|template -> text/template parses it
 	}
 
 	// Obs are the projected observables of the real code.
